@@ -911,7 +911,7 @@ func registerJSONModel(e *Engine) {
 		}
 		data := termsOfSlice(res[0])
 		if len(data) == 0 {
-			return x.errorValue("EOF"), true
+			return x.ioEOF(), true
 		}
 		return x.jsonUnmarshal(data, a[1], jsonDecodeOpts{useNumber: d.useNumber}), true
 	}
@@ -925,4 +925,17 @@ func registerJSONModel(e *Engine) {
 type jsonDecoderState struct {
 	reader    Value
 	useNumber bool
+}
+
+
+// the io.EOF sentinel itself (callers compare with ==)
+func (x *Exec) ioEOF() Value {
+	for _, p := range x.eng.prog.AllPackages() {
+		if p.Pkg.Path() == "io" {
+			if g, ok := p.Members["EOF"].(*ssa.Global); ok {
+				return x.eng.global(x, g).Load()
+			}
+		}
+	}
+	return x.errorValue("EOF")
 }
